@@ -43,7 +43,7 @@ ANCHORS = ['pfhedge.nn.modules.loss:HedgeLoss.cash',
            'pfhedge._utils.operations:ensemble_mean']
 PYTEST_WORKLOAD = True  # thorough tier also runs /repo/tests with these passive monitors attached (DESIGN.md 2.7)
 DECIDING = ["cash.history_independent", "cash.equivalent", "cash.bounds", "cash.qcvar_is_minus_risk", "price.is_minus_cash", "price.shift_equivariant", "price.entropic_equals_loss"]
-REQUIRED_BRANCHES = ["cash.erm_large_ax", "cash.default_search", "cash.closed_form", "cash.target_tensor", "cash.multi_column", "cash.constant_sample",
+REQUIRED_BRANCHES = ["price.init_state_given", "cash.erm_large_ax", "cash.default_search", "cash.closed_form", "cash.target_tensor", "cash.multi_column", "cash.constant_sample",
                      "price.clauses", "price.n_times>1"]
 
 _CTX = None
@@ -177,6 +177,7 @@ def _mk_dsim(orig):
     def simulate(self, n_paths=1, init_state=None):
         if _PRICE_TAPS:
             _PRICE_TAPS[-1]["sims"].append(n_paths)
+            _PRICE_TAPS[-1].setdefault("inits", []).append(init_state)
         return orig(self, n_paths=n_paths, init_state=init_state)
 
     return simulate
@@ -199,6 +200,11 @@ def _mk_price(orig):
         sig = (cname, type(derivative).__name__, type(self.model).__name__, n_times, bool(list(derivative.clauses())))
         if n_times > 1:
             ctx.branch("price.n_times>1")
+        if init_state is not None:
+            ctx.branch("price.init_state_given")
+        if any(i_ is not init_state and i_ != init_state for i_ in rec.get("inits", [])):
+            ctx.violation(mon, "init_state", f"price(init_state={init_state}) simulated with init_state {rec.get('inits')}", sig=sig)
+            return out
         if len(rec["cash"]) != n_times or rec["sims"] != [n_paths] * n_times:
             ctx.violation(mon, "n_times", f"price(n_times={n_times}, n_paths={n_paths}) made {len(rec['cash'])} cash evaluations on simulations {rec['sims']}", sig=sig)
             return out
@@ -316,8 +322,12 @@ def drv_price(ctx, k, rng):
     n_times = int(pick(rng, [1, 1, 3]))
     seed = int(rng.integers(1 << 30))
     torch.manual_seed(seed)
+    init = None
+    if rng.random() < 0.3:
+        init = (1.07,) if desc["stock"] not in ("heston", "rbergomi") else (1.07, 0.05)
+    kw_init = {} if init is None else {"init_state": init}
     try:
-        p0 = hedger.price(derivative, hedge, n_paths=n_paths, n_times=n_times)
+        p0 = hedger.price(derivative, hedge, n_paths=n_paths, n_times=n_times, **kw_init)
     except (ValueError, RuntimeError) as ex:
         if "lower < upper" in str(ex) or "max_iter" in str(ex):
             return
@@ -331,7 +341,7 @@ def drv_price(ctx, k, rng):
     ctx.branch("price.clauses")
     torch.manual_seed(seed)
     try:
-        p1 = hedger.price(derivative, hedge, n_paths=n_paths, n_times=n_times)
+        p1 = hedger.price(derivative, hedge, n_paths=n_paths, n_times=n_times, **kw_init)
     except (ValueError, RuntimeError) as ex:
         if "lower < upper" in str(ex) or "max_iter" in str(ex):
             return
@@ -356,7 +366,7 @@ def drv_price(ctx, k, rng):
         ctx.seen(mon)
         torch.manual_seed(seed)
         with torch.no_grad():
-            l1 = hedger.compute_loss(derivative, hedge, n_paths=n_paths, n_times=n_times)
+            l1 = hedger.compute_loss(derivative, hedge, n_paths=n_paths, n_times=n_times, **kw_init)
         if torch.isfinite(p1):
             ctx.check(mon, abs(float(l1) - float(p1)) <= 64 * e * (abs(float(p1)) + 1), "entropic_price_vs_loss", f"entropic price {float(p1)!r} != loss {float(l1)!r} "
                       "under the same seed", sig=(desc["derivative"], desc["model"]), desc=desc)
